@@ -2002,9 +2002,21 @@ func (p *parser) projection(prec int) (Node, error) {
 					return nil, err
 				}
 
-				node, err = p.expression(newPrec)
+				right, err := p.expression(newPrec)
 				if err != nil {
 					return nil, err
+				}
+
+				if isProjectNode(node) {
+					node = &ProjectArrayNode{
+						Left:  node,
+						Right: right,
+					}
+				} else {
+					node = &PipeNode{
+						Left:  node,
+						Right: right,
+					}
 				}
 			default:
 				return nil, &unexpectedTokenError{p.curr.Value}
